@@ -286,6 +286,19 @@ func init() {
 		w.ex.Thread("S1", func() { w.n.Send(id, "fail") })
 		w.ex.Thread("S2", func() { w.n.Send(id, "fail") })
 	})
+	// a meta process is terminated through its mailbox while Start() is still blocked; Start() then panics
+	for _, how := range []string{"handler-error", "owner-killed"} {
+		how := how
+		metaSc("meta-start-panics-after-"+how, []string{"E", "kill"}, func(w *World, id gen.Alias, mp *metaProbe) {
+			mp.startPanics = true
+			if how == "handler-error" {
+				w.Setup("end-meta", func() { w.n.Send(id, "fail") })
+			} else {
+				w.Setup("end-meta", func() { w.n.Kill(w.pids["PR"]) })
+			}
+			w.ex.Thread("G", func() { mp.start.Open() })
+		})
+	}
 	// termination during init: init returns an error => no Terminate callback, spawn fails
 	harn.Register(harn.Scenario{Property: "C05", Name: "init-error", Run: func(c *harn.Ctx) *harn.Result {
 		return harn.Explore(c, harn.Sched{QuickBound: 1, ThoroughBound: 2, Preempt: true, Cache: true,
